@@ -278,6 +278,98 @@ def h_analyzer(ctx, first_expected, second_expected):
     ctx.check(hasattr(r2, "performance"), "analyzer:performance-present")
 
 
+AN_OPS = ["circuit-other-herald-mode", "circuit-other-herald-photons", "loss-added-in-place", "component-added-in-place",
+          "postselect-reassigned", "postselect-inplace", "param-set"]
+
+
+def h_analyzer_history(ctx, ops):
+    """a long-lived Analyzer gives, after any reconfiguration, what a fresh Analyzer on the
+    current circuit with the current post-selection gives"""
+    lw = ctx.lw
+    f = ctx.m.frac
+    par = lw.Parameter(ctx.real("v0", 0, 1))
+    state = {"hmode": 2, "hphot": 0, "loss": [], "extra": 0, "ps_rules": [], "par": par}
+
+    def mk(param):
+        c = lw.Circuit(3)
+        c.bs(0, reflectivity=param)
+        c.bs(1, reflectivity=f(1, 2), convention="H")
+        for _ in range(state["extra"]):
+            c.bs(0, reflectivity=f(1, 3))
+        for lam in state["loss"]:
+            c.loss(0, lam)
+        c.herald(state["hphot"], state["hmode"], 2 - state["hmode"] if state["hmode"] != 2 else 2)
+        return c
+
+    def mk_ps():
+        ps = lw.PostSelection()
+        for (m, n) in state["ps_rules"]:
+            ps.add(m, n)
+        return ps
+    circ = mk(par)
+    ps = mk_ps()
+    an = lw.emulator.Analyzer(circ)
+    an.post_selection = ps
+    inp = lw.State([1, 0])
+
+    def run(a):
+        try:
+            r = a.analyze(inp)
+        except (ValueError, ZeroDivisionError, lw.emulator.EmulatorError) as e:
+            return type(e).__name__
+        return r
+
+    def compare(label):
+        fresh = lw.emulator.Analyzer(mk(state["par"].get()))
+        fresh.post_selection = mk_ps()
+        r1, r2 = run(an), run(fresh)
+        if isinstance(r1, str) or isinstance(r2, str):
+            ctx.check(isinstance(r1, str) and isinstance(r2, str) and r1 == r2, label + ":same-outcome-as-fresh-analyzer", {"long-lived": str(r1)[:40], "fresh": str(r2)[:40]})
+            return
+        o1 = [tuple(o.s) for o in r1.outputs]
+        o2 = [tuple(o.s) for o in r2.outputs]
+        ctx.check(sorted(o1) == sorted(o2), label + ":same-outputs-as-fresh-analyzer", {"long-lived": str(o1)[:60], "fresh": str(o2)[:60]})
+        for j, o in enumerate(o1):
+            if o in o2:
+                ctx.check_eq(r1.array[0, j], r2.array[0, o2.index(o)], label + ":same-probabilities-as-fresh-analyzer")
+        ctx.check_eq(r1.performance, r2.performance, label + ":same-performance-as-fresh-analyzer")
+    compare("initial")
+    for i, op in enumerate(ops):
+        if op == "circuit-other-herald-mode":
+            state["hmode"] = 0 if state["hmode"] == 2 else 2
+            circ = mk(state["par"])
+            an.circuit = circ
+        elif op == "circuit-other-herald-photons":
+            state["hphot"] = 1 - state["hphot"]
+            circ = mk(state["par"])
+            an.circuit = circ
+        elif op == "loss-added-in-place":
+            lam = ctx.real(f"lam{i}", 0, 1)
+            ctx.assume(lam > 0)
+            state["loss"] = state["loss"] + [lam]
+            circ.loss(0, lam)
+        elif op == "component-added-in-place":
+            if state["loss"]:
+                ctx.reached()
+                return  # the reference builder places extra components before the loss elements
+            state["extra"] += 1
+            circ.bs(0, reflectivity=f(1, 3))
+        elif op == "postselect-reassigned":
+            state["ps_rules"] = [(0, (0, 1))] if not state["ps_rules"] else [(1, 0)]
+            ps = mk_ps()
+            an.post_selection = ps
+        elif op == "postselect-inplace":
+            rule = (1, (0, 1)) if not any(m == 1 for m, _ in state["ps_rules"]) else None
+            if rule is None:
+                ctx.reached()
+                return
+            state["ps_rules"] = state["ps_rules"] + [rule]
+            ps.add(*rule)
+        elif op == "param-set":
+            state["par"].set(ctx.real(f"v{i + 1}", 0, 1))
+        compare(f"after:{op}")
+
+
 def harnesses(tier):
     L = 2 if tier == "quick" else 3
     hist = []
@@ -302,4 +394,5 @@ def harnesses(tier):
         ("history", h_history, hist, dict(max_paths=4000, max_seconds=1500)),
         ("sample-without-read", h_sample_without_read, swr),
         ("analyzer", h_analyzer, [dict(first_expected=a, second_expected=b) for a in (True, False) for b in (True, False)]),
+        ("analyzer-history", h_analyzer_history, [dict(ops=[a]) for a in AN_OPS] + [dict(ops=[a, b]) for a in AN_OPS for b in AN_OPS if a != b or a == "loss-added-in-place"]),
     ]
